@@ -23,7 +23,7 @@ const modPath = "x.io/test"
 func module() pipe.Tree {
 	var a strings.Builder
 	a.WriteString("// Package a is order sensitive on purpose.\n// +gengo:deepcopy\n// +gengo:runtimedoc\npackage a\n\nimport (\n\t\"" + modPath + "/b\"\n\t\"" + modPath + "/c\"\n)\n\n")
-	a.WriteString("// T is the package-level T.\ntype T struct {\n\t// B field\n\tB b.B\n\t// C field\n\tC c.C\n\t// M field\n\tM map[string]int\n\tS []string\n}\n\n")
+	a.WriteString("// T is the package-level T.\ntype T struct {\n\t// B field\n\tB b.B\n\t// C field\n\tC c.C\n\t// M\n\t// of the thing (the first doc line is only the name)\n\tM map[string]int\n\tS []string\n}\n\n")
 	a.WriteString("func generic[T any](t T) T { return t }\n\nfunc local() int {\n\ttype T struct{ L int }\n\ttype Z int\n\treturn T{}.L + int(Z(0))\n}\n\n")
 	for i := 1; i <= 12; i++ {
 		fmt.Fprintf(&a, "// T%02d is number %d.\ntype T%02d struct {\n\t// F doc\n\tF int\n\tG []int\n}\n\n", i, i, i)
@@ -58,6 +58,7 @@ func spec(dir string, entry []string, all bool) pipe.Spec {
 			sp.Gens[i], sp.Gens[j] = sp.Gens[j], sp.Gens[i]
 		}
 	}
+	sp.RealFirst = genOrder == 2
 	return sp
 }
 
@@ -69,7 +70,7 @@ func specInOrder(dir string, entry []string, all bool) pipe.Spec {
 			// "g" signals ErrIgnore for one type and renders nothing; "gx" renders nothing at all
 			{Name: "g", ByType: map[string]pipe.Action{modPath + "/a.T": {Ret: "ignore"}}},
 			{Name: "gx"},
-			{Name: "g1", Stateful: true, Default: pipe.Action{Render: "var V_$T_$G = 1\n", Imports: clashing, Defers: []pipe.Action{{Render: "var D_$T_$G = 1\n"}}},
+			{Name: "g1", Stateful: true, Default: pipe.Action{Render: "var V_$T_$G = 1\n", Imports: clashing, DocOfFields: true, Defers: []pipe.Action{{Render: "var D_$T_$G = 1\n"}}},
 				// package c refers only to the SECOND member of each clashing pair: alone it gets the plain names
 				ByType: map[string]pipe.Action{
 					modPath + "/c.C":  {Render: "var V_$T_$G = 1\n", Imports: []string{"x.io/b/util", "foo/fmt", "k8s.io/apis/core/v1"}},
@@ -89,7 +90,7 @@ type Case struct {
 	Policy   map[string]int `json:"seam_policy_vector,omitempty"`
 	Runs     int            `json:"consecutive_runs,omitempty"`
 	Child    bool           `json:"fresh_process_per_run,omitempty"`
-	GenOrder int            `json:"scripted_generators_listed_in_reverse,omitempty"`
+	GenOrder int            `json:"generator_order_1_scripted_reversed_2_repository_generators_first,omitempty"`
 	// history variant: the first run fails with a generator error at this type
 	FailFirstRunAt string `json:"first_run_fails_at_type,omitempty"`
 }
@@ -381,8 +382,10 @@ func run(c *core.Ctx) {
 	// (i') the same generator SET listed in the reverse order (GetRegisteredGenerators hands them out in map order)
 	for _, all := range []bool{false, true} {
 		for _, d := range []int{0, 1} {
-			if (d == 0 || seamctl.Available()) && c.Next() {
-				checkAgainst(c, Case{Entry: entryAll, All: all, Def: d, GenOrder: 1}, fmt.Sprint("abc", all), entryAll)
+			for _, order := range []int{1, 2} {
+				if (d == 0 || seamctl.Available()) && c.Next() {
+					checkAgainst(c, Case{Entry: entryAll, All: all, Def: d, GenOrder: order}, fmt.Sprint("abc", all), entryAll)
+				}
 			}
 		}
 	}
